@@ -151,6 +151,10 @@ class PointTier(textgrid_tier.TextgridTier):
             the modified version of the current tier
         """
         referenceTimestamps = referenceTier.timestamps
+        if len(referenceTimestamps) == 0 and len(self.entries) > 0:
+            raise errors.ArgumentError(
+                "dejitter() needs a reference tier with at least one timestamp"
+            )
 
         newEntries = []
         for time, label in self.entries:
